@@ -208,6 +208,9 @@ func runUnmarshalSeq(pkt bool, bufs [][]byte) (o Outcome) {
 			switch {
 			case declared > len(buf):
 				o.Fail = fmt.Sprintf("step %d: accepted although the declared header length %d exceeds the %d input bytes", step, declared, len(buf))
+			case currentProp != "C03":
+				// that the payload starts right behind the block the wire declares is C03's clause ("lies inside the
+				// input" is C02's, checked above and below)
 			case n > declared || (n < declared && !oneByte):
 				// n < declared happens only for the one-byte profile's reserved id 15 (KF-C03-reserved15);
 				// since fix D23 an element that overruns its block is rejected, so n never exceeds it
@@ -221,7 +224,7 @@ func runUnmarshalSeq(pkt bool, bufs [][]byte) (o Outcome) {
 			if hh.Extension && len(ids) != len(hh.Extensions) && o.Fail == "" {
 				o.Fail = fmt.Sprintf("step %d: %d extension elements decoded, GetExtensionIDs lists %d", step, len(hh.Extensions), len(ids))
 			}
-			if hh.Extension && hh.ExtensionProfile != 0xBEDE && !isTwoByte(hh.ExtensionProfile) && !(len(ids) == 1 && ids[0] == 0) && o.Fail == "" {
+			if currentProp == "C03" && hh.Extension && hh.ExtensionProfile != 0xBEDE && !isTwoByte(hh.ExtensionProfile) && !(len(ids) == 1 && ids[0] == 0) && o.Fail == "" {
 				o.Fail = fmt.Sprintf("step %d: legacy extension block (profile %#04x): GetExtensionIDs = %v, expected [0]", step, hh.ExtensionProfile, ids)
 			}
 		}
@@ -243,7 +246,9 @@ func runUnmarshalSeq(pkt bool, bufs [][]byte) (o Outcome) {
 				o.Fail = fmt.Sprintf("step %d: %s", step, why)
 			}
 			// re-encoding (C03): Marshal reports invalid padding (P bit, count 0) or yields bytes that decode equal
-			if b2, merr := p.Marshal(); merr != nil {
+			if currentProp != "C03" {
+				// re-encoding is C03's clause
+			} else if b2, merr := p.Marshal(); merr != nil {
 				if !(p.Padding && p.PaddingSize == 0) {
 					o.Fail = fmt.Sprintf("step %d: accepted input cannot be re-marshalled: %v", step, merr)
 				}
